@@ -8,7 +8,7 @@ from props import common
 
 ID = "C01"
 MODULES = ["Series", "SO2", "SE2", "Rn", "SO3", "SE3", "SE23", "Products"]
-LEAN_TARGETS = ["Props.C01"]
+LEAN_TARGETS = ["Props.C01", "Props.C01P"]
 ANCHORS = ["cyecca/lie/base.py", "cyecca/lie/group_so2.py", "cyecca/lie/group_se2.py", "cyecca/lie/group_rn.py",
            "cyecca/lie/group_so3.py", "cyecca/lie/group_se3.py", "cyecca/lie/group_se23.py",
            "cyecca/lie/direct_product.py"]
